@@ -245,6 +245,32 @@ int main(void) {
             fputc('\n', stdout);
             free(h);
         }
+        else if (0 == strcmp(op, "walk") && ltv_ntok == 3) {
+            /* http_range_parse() on an exact-size NUL-terminated heap copy (ASan sees any
+             * step of the pointer walk past the NUL); compared with the pointer-walk model */
+            off_t ranges[RMAX*2];
+            size_t n; unsigned char *h = ltv_unhex(ltv_tok[2], &n);
+            long long len = tok_ll(ltv_tok[1]);
+            if (len <= 0) { puts("bad-op"); free(h); continue; }
+            int np = http_range_parse((const char *)h, (off_t)len, ranges);
+            printf("%d", np / 2);
+            for (int i = 0; i + 1 < np; i += 2)
+                printf(" %lld-%lld", (long long)ranges[i], (long long)ranges[i+1]);
+            fputc('\n', stdout);
+            free(h);
+        }
+        else if (0 == strcmp(op, "pnext") && ltv_ntok == 3) {
+            /* http_range_parse_next(): the range (x: ranges[1] == -1) and the returned pointer */
+            off_t rg[2] = { -7, -7 };
+            size_t n; unsigned char *h = ltv_unhex(ltv_tok[2], &n);
+            long long len = tok_ll(ltv_tok[1]);
+            if (len <= 0) { puts("bad-op"); free(h); continue; }
+            const char *e = http_range_parse_next((const char *)h, (off_t)len, rg);
+            if (rg[1] == -1) fputc('x', stdout);
+            else printf("%lld-%lld", (long long)rg[0], (long long)rg[1]);
+            printf(" %ld\n", (long)(e - (const char *)h));
+            free(h);
+        }
         else if (0 == strcmp(op, "etag") && ltv_ntok == 4) {
             size_t n, m; unsigned char *e = ltv_unhex(ltv_tok[2], &n);
             unsigned char *h = ltv_unhex(ltv_tok[3], &m);
